@@ -234,15 +234,16 @@ theorem generate_meets_spec (v : Version) (strict : Bool) (V : Option (Doc Schem
     opids_unique_or_error v strict V env ops d h⟩, names_wellformed v strict V env ops d h⟩,
     wf_doc v strict V env ops d henv hvalid h⟩
 
-/-- non-vacuity of `generate_meets_spec`: hypotheses met, a document is produced, the oracle evaluates to true -/
+/-- non-vacuity of `generate_meets_spec`: hypotheses met, a document is produced, the oracle evaluates to
+    true (kept small: kernel evaluation duplicates `let`-bound recursive results; no response type:
+    `decide` cannot run the well-founded `gen`) -/
 example :
     let ops : List OpIn :=
-      [{ method := s "POST", path := s "/orders/:orderId/items", summary := s "s", description := [], opID := [], req := none,
-         resps := [(404, s "Not Found", none), (201, s "Created", some (.prim .string))] },
-       { method := s "TRACE", path := s "/orders/:orderId/items", summary := [], description := [], opID := [], req := none, resps := [] }]
+      [{ method := s "POST", path := s "/o/:id", summary := s "s", description := [], opID := [], req := none,
+         resps := [(201, s "Created", none)] }]
     (ops.all (fun op => validatePath op.path) &&
      (match generate .v30 true none [] ops with
-      | .ok d => docOK .v30 ops d && d.opIds == [s "createOrderItemByOrderId"]
+      | .ok d => docOK .v30 ops d && d.opIds == [s "createOById"]
       | .error _ => false)) = true := by decide
 
 /-- **validation_transparent.** Switching on the built-in validation never rejects a document the
